@@ -5,7 +5,7 @@ NUM = "Does not decide any numerical behaviour (values of states, matrices, prob
 P = {
  "C01": ("axis-layout abstract interpretation (finite case split) + API table agreement",
          "Decides structural necessary conditions of 'same physics on every backend': the Fock tensor kernels receive the axes of the target modes for every ordered mode choice, pure and mixed, n<=4 (abstract interpretation of apply_twomode_gate / apply_gate_BLAS / prepare_multimode on axis labels); every backend call made by ops._apply resolves to a non-stub method with the declared parameter order; wrappers forward parameters under their own names; N/M update stores are confined, mirrored, not dead. " + NUM,
-         "small-scope bound n<=4 (5 thorough) for the layout interpreter; mode-kind seeds from backends/base.py; CPython ast"),
+         "small-scope bound n<=4 (5 thorough) for the layout interpreter, which folds index arithmetic with its own evaluator for the Python subset of the Fock backend (unmodelled constructs fail closed); mode-kind seeds from backends/base.py"),
  "C02": ("class-table + def-use rules on _decompose products; frozen first-parameter table; hbar-power typing of products",
          "Decides: decomposition products of Gate classes are fresh, single-use and Gate-typed (so Gate.decompose can invert them), Gate.decompose flips all and reverses; Gate.apply negates p[0] exactly under dagger; natively applied gates that inherit the first-parameter convention forward p[0] to a backend method for which it is the group law (frozen table); product registers derive from `reg`; every allowed mesh is handled; Compiler.decompose recurses with the option dict and guards primitives; Xgate/Zgate/Gaussian products have the documented hbar power. " + NUM,
          "FIRST_PARAM_SOUND/UNSOUND tables (docstring formulas); hbar-power table; known findings MZgate/Ggate"),
